@@ -59,3 +59,22 @@ Definition user_drops_rename_source (hs : list handler) : bool :=
               && mem_s "current_directory" (h_conn_sets h)
   | None => false
   end.
+
+(* the permission decision and the handler's own resolution of `rest` are not separated by anything that can
+   suspend: PathPermissions is the INNERMOST decorator of every handler that carries it (PathConditions, which awaits
+   the backend, and ConnectionConditions come before it), and the body of every method that calls get_paths starts
+   with that call.  (User.get_permissions is a coroutine without a suspension point: Gen/UserMgr-style fact of C10;
+   custom users are outside.)  Otherwise a pipelined CWD can run between the check and the use. *)
+Definition is_pathperm (d : deco) : bool := match d with DPathPerm _ => true | _ => false end.
+
+Definition perm_innermost (h : handler) : bool :=
+  match rev (h_decos h) with
+  | [] => true
+  | d :: before => is_pathperm d && negb (existsb is_pathperm before)
+                   || negb (existsb is_pathperm (d :: before))
+  end.
+
+Definition check_check_use_atomic (hs : list handler) (first : list (string * bool)) : bool :=
+  forallb perm_innermost hs
+  && forallb (fun h => negb (h_get_paths h) || match assoc_s (h_name h) first with Some b => b | None => false end) hs
+  && forallb (fun nb => snd nb) first.
